@@ -64,6 +64,11 @@ def make_manager_class():
                 mw.raises_left -= 1
                 rec["raised"] = True
                 raise ClientHandlerFailed(f"client handler failed on {event.name}")
+            if mw.reset_in_handler and event.name in mw.reset_in_handler and mw.resets_in_handler_left > 0:
+                # a client that reacts to this event by resetting the manager, right here in its handler
+                mw.resets_in_handler_left -= 1
+                rec["reset_from_handler"] = True
+                await self.async_reset()
             d = mw.suspend(event.name)
             if d is not None:
                 rec["suspended"] = d
@@ -163,6 +168,7 @@ class ManWorld:
         self.sim = SimHost(self.w.net, path)
         self.events, self.api, self.samples = [], [], []
         self.sensor_notifications = []
+        self.reset_in_handler, self.resets_in_handler_left = None, 0
         self.suspend_mode = suspend
         self.suspend_events = None
         self.mode = "healthy"
@@ -211,6 +217,11 @@ class ManWorld:
     def _fault(self, d):
         if self.mode == "blackout":
             return []
+        if self.mode == "nopoll":
+            # the facade's own polls (watercare, reminders) go unanswered; pings and everything else pass
+            if d.dir == "c2s" and d.verb in ("GETWC", "REQRM"):
+                return []
+            return None
         if self.mode == "slowconnect":
             # no ping gets through at all, and the first p requests of each handshake step are lost
             if d.verb == "APING":
